@@ -118,6 +118,7 @@ class M(Hooks):
         self.instances = 0
         self.auto_hole = bool(cfg['autos'] >> 4 & 1)
         self.dealt_streets = set()
+        self.fallback_streets = set()
 
     def v(self, kind, key, msg):
         if not self.viol:
@@ -191,6 +192,23 @@ class M(Hooks):
                         return
         if k in DEAL and s.street_index is not None:
             self.dealt_streets.add(s.street_index)
+        if k == 'deal_board':
+            # a community card lies on (at least) one board
+            lying = [c for row in s.board_cards for c in row]
+            seen = [c for b in s.board_indices for c in s.get_board_cards(b)]
+            lost = [c for c in lying if c not in seen]
+            if lost:
+                two = sum(1 for i, st_ in enumerate(s.streets)
+                          if not st_.board_dealing_count
+                          and i in self.fallback_streets) >= 1
+                self.v('community_card_on_no_board',
+                       'second_fallback_street' if two else '',
+                       f'{op!r}: {lost} lie in board_cards {s.board_cards}'
+                       f' but on none of the boards'
+                       f' {[list(s.get_board_cards(b)) for b in s.board_indices]}')
+                return
+            if s.street is not None and not s.street.board_dealing_count:
+                self.fallback_streets.add(s.street_index)
         if k not in DEAL:
             self.close(s, f'{type(op).__name__}')
             if k in BETTING and self.last_done != s.street_index \
@@ -348,10 +366,32 @@ def _manual_showdown(case):
     return case
 
 
+@st.composite
+def nine_handed_stud(draw):
+    """Constructed region: a nine-handed stud table where nobody (or hardly
+    anybody) folds: the deck covers neither sixth nor seventh street, so two
+    streets in a row fall back to a shared card."""
+    game = draw(st.sampled_from(['F7S', 'F7S8', 'FR']))
+    n = 9
+    tape = draw(st.lists(st.sampled_from([0, 0, 0, 0, 0, 5, 40]),
+                         max_size=60))
+    cfg = dict(
+        game=game, custom=None, n=n, mode=draw(st.sampled_from(['C', 'T'])),
+        autos=draw(st.sampled_from([2047, 2047, 2047 & ~(1 << 4),
+                                    2047 & ~(1 << 5)])),
+        boards=1, trim=True, antes=[1] * n, blinds=[0] * n, bring_in=1,
+        sb=2, bb=4, stacks=[200] * n, chip='int', rake=None,
+        divmod='default', deck_seed=draw(st.integers(0, 10 ** 6)),
+        profile=0, strict=False, unknown=False, rig=None,
+    )
+    return {'config': cfg, 'tape': tape}
+
+
 def strategy(tier):
     common = dict(unknown=False, tape_size=110, rake=False, divmods=False,
                   chips=('int',))
     return st.one_of(
+        nine_handed_stud(),
         gen.cases(profiles=(0, 4, 5, 3), **common),
         gen.cases(profiles=(5, 0, 4), min_players=6,
                   games=('F7S', 'F7S8', 'FR', 'NR', 'F2L3D', 'FB'), **common),
